@@ -18,6 +18,8 @@ pub struct Info {
     pub fti: Option<(u8, u16, u32, u64)>,
     pub pid: Option<(u32, u32)>,
     pub payload: Vec<u8>,
+    /// EXT_CENC present with a content encoding other than null
+    pub encoded: bool,
 }
 
 /// `Err(())` = the parser rejected the datagram
@@ -51,6 +53,7 @@ pub fn parse_info(bytes: &[u8]) -> Result<Info, ()> {
         fti,
         pid,
         payload: bytes[p.data_payload_offset..].to_vec(),
+        encoded: matches!(p.cenc, Some(c) if c != flute::core::lct::Cenc::Null),
     })
 }
 
